@@ -86,7 +86,7 @@ EXC_MAP = {"ValueError": "valueError", "TypeError": "typeError", "KeyError": "ke
 CMP = {ast.Eq: "Py.eqV", ast.NotEq: "Py.neV", ast.Is: "Py.isV", ast.IsNot: "Py.isNotV", ast.In: "Py.inV", ast.NotIn: "Py.notInV",
        ast.Lt: "Py.ltV", ast.LtE: "Py.leV", ast.Gt: "Py.gtV", ast.GtE: "Py.geV"}
 BIN = {ast.Add: "Py.add", ast.Sub: "Py.sub", ast.Mult: "Py.mul", ast.FloorDiv: "Py.floordiv", ast.Mod: "Py.mod", ast.BitAnd: "Py.bitand",
-       ast.BitXor: "Py.bitxor", ast.BitOr: "Py.bitor", ast.RShift: "Py.shr"}
+       ast.BitXor: "Py.bitxor", ast.BitOr: "Py.bitor", ast.RShift: "Py.shr", ast.LShift: "Py.shl", ast.Pow: "Py.pow"}
 MUTATING_METHODS = {"put_nowait", "get_nowait", "put", "get", "append", "pop", "clear", "update", "extend", "remove", "insert", "popitem", "setdefault"}
 
 
@@ -122,8 +122,9 @@ def const_fold(e):
 class Unit(object):
     """One translation unit: the functions of one module that are to be translated, with what they may refer to."""
 
-    def __init__(self, consts):
+    def __init__(self, consts, module=None):
         self.consts = consts          # python module object `constants`
+        self.module = module          # the python module the functions live in (for module-level constants they refer to by bare name)
         self.used_consts = {}
         self.bad = set()              # functions that could not be translated
         self.fns = {}                 # lean name -> dict(cls, name, node, params, impure, is_prop)
@@ -193,6 +194,8 @@ class FnTr(object):
         self.n = 0
         self.locals = set(self.f["params"])
         self.aliases = set()          # locals bound to (parts of) mutable objects reachable from another root
+        self.dead = []                # reasons of branches replaced by `throw Err.unsupported`
+        self.live_paths = 0
 
     # ---- emission helpers
     def emit(self, s):
@@ -251,6 +254,12 @@ class FnTr(object):
         if isinstance(e, ast.Name):
             if e.id in self.locals:
                 return self.var(e.id)
+            if self.u.module is not None and e.id.isupper() and hasattr(self.u.module, e.id):
+                v = getattr(self.u.module, e.id)
+                if isinstance(v, float):
+                    raise Unsupported("float constant %s" % e.id)
+                self.u.used_consts[e.id] = lean_const(v)
+                return "const_" + e.id
             raise Unsupported("free name %s" % e.id)
         if isinstance(e, ast.Attribute):
             if isinstance(e.value, ast.Name) and e.value.id == "constants":
@@ -314,6 +323,16 @@ class FnTr(object):
         if isinstance(e, ast.Call):
             return self.call(e)
         raise Unsupported("expression %s" % type(e).__name__)
+
+    def static_value(self, e):
+        """python value of an expression that names a constant (constants.X / module-level NAME / literal), else None"""
+        if isinstance(e, ast.Constant):
+            return e.value
+        if isinstance(e, ast.Attribute) and isinstance(e.value, ast.Name) and e.value.id == "constants":
+            return getattr(self.u.consts, e.attr, None)
+        if isinstance(e, ast.Name) and self.u.module is not None and e.id.isupper():
+            return getattr(self.u.module, e.id, None)
+        return None
 
     def sub_block(self, e):
         """a nested `do` block computing expression e (used for lazily used operands)"""
@@ -436,6 +455,8 @@ class FnTr(object):
                 return self.bind("Py.ord_ %s" % self.expr(e.args[0]))
             if name == "isinstance" and len(e.args) == 2 and isinstance(e.args[1], ast.Name):
                 return self.bind("Py.isinstance %s %s" % (self.expr(e.args[0]), lean_str(e.args[1].id)))
+            if name == "hasattr" and len(e.args) == 2 and isinstance(e.args[1], ast.Constant) and e.args[1].value == "to_bytes":
+                return self.bind("Py.hasToBytes %s" % self.expr(e.args[0]))
             if name == "bytearray" and len(e.args) <= 1:
                 if not e.args:
                     return "(Val.bytearray [])"
@@ -465,12 +486,18 @@ class FnTr(object):
                 if f.attr == "pack" and e.args:
                     fmt = self.expr(e.args[0])
                     args = [self.expr(a) for a in e.args[1:]]
-                    return self.bind("Py.structPack %s [%s]" % (fmt, ", ".join(args)))
+                    fv = self.static_value(e.args[0])
+                    simple = isinstance(fv, (bytes, str)) and __import__("re").fullmatch(r"<\d*I", fv.decode() if isinstance(fv, bytes) else fv)
+                    return self.bind("%s %s [%s]" % ("Py.structPack" if simple or fv is None else "Py.structPackG", fmt, ", ".join(args)))
                 if f.attr == "unpack" and len(e.args) == 2:
                     return self.bind("Py.structUnpack %s %s" % (self.expr(e.args[0]), self.expr(e.args[1])))
                 if f.attr == "calcsize" and len(e.args) == 1:
                     return self.bind("Py.structCalcsize %s" % self.expr(e.args[0]))
                 raise Unsupported("struct.%s" % f.attr)
+            if isinstance(f.value, ast.Name) and f.value.id == "rsa" and f.attr == "_modinv" and len(e.args) == 2:
+                return self.bind("Py.modinv %s %s" % (self.expr(e.args[0]), self.expr(e.args[1])))
+            if f.attr == "to_bytes" and len(e.args) == 2:
+                return self.bind("Py.intToBytes %s %s %s" % (self.expr(f.value), self.expr(e.args[0]), self.expr(e.args[1])))
             if isinstance(f.value, ast.Name) and f.value.id == "self":
                 callee = self.u.classes.get(self.f["cls"], {}).get(f.attr)
                 if callee is None:
@@ -550,12 +577,12 @@ class FnTr(object):
             self.emit("if (← Py.truthy %s) then" % c)
             saved_locals, saved_aliases = set(self.locals), set(self.aliases)
             self.ind += 1
-            self.block(s.body, cont)
+            self.branch(s.body, cont)
             self.ind -= 1
             self.locals, self.aliases = set(saved_locals), set(saved_aliases)
             self.emit("else")
             self.ind += 1
-            self.block(s.orelse, cont)
+            self.branch(s.orelse, cont)
             self.ind -= 1
             self.locals, self.aliases = saved_locals, saved_aliases
             return
@@ -682,6 +709,19 @@ class FnTr(object):
             raise Unsupported(" ".join(s.names))
         raise Unsupported("statement %s" % type(s).__name__)
 
+    def branch(self, stmts, k):
+        """one branch of an `if` (with the code after the `if`): a branch that leaves the subset becomes `throw Err.unsupported` -- the function then
+        says 'unsupported' on the inputs that take it instead of being untranslatable as a whole (the theorems are about the other inputs).
+        A function ALL of whose paths are unsupported is still reported as untranslatable (see translate)."""
+        mark, n0 = len(self.lines), self.n
+        try:
+            self.block(stmts, k)
+            self.live_paths += 1
+        except Unsupported as exc:
+            del self.lines[mark:]
+            self.emit("throw Err.unsupported   -- outside the translated subset: %s" % str(exc).replace("\n", " ")[:120])
+            self.dead.append(str(exc))
+
     def mut_call(self, val, tgt):
         """statement-level calls that change an object: impure self methods and queue put/get through a path. Returns True if handled."""
         if not (isinstance(val, ast.Call) and isinstance(val.func, ast.Attribute)):
@@ -734,6 +774,8 @@ class FnTr(object):
         rty = "Py.M (Val × Val)" if f["impure"] else "Py.M Val"
         head = "def %s (%s : Val) : %s := do" % (self.lean, params, rty) if f["params"] else "def %s : %s := do" % (self.lean, rty)
         self.block(f["body"], lambda: self.ret("Val.none"))
+        if self.dead and not any(l.strip().startswith("pure ") for l in self.lines):
+            raise Unsupported("every path leaves the subset: " + "; ".join(self.dead[:3]))
         return [head] + self.lines
 
 
@@ -832,6 +874,33 @@ def build_units(repo):
             m.body = strip_docstring(m.body)
             u.add_function("AdbMessage", m)
     units.append(("adb_message.py", u))
+    # ---- auth/keygen.py: _to_bytes and the arithmetic of encode_pubkey (everything after the key file has been read)
+    try:
+        kg_mod = importlib.import_module("adb_shell.auth.keygen")
+        with open(os.path.join(repo, "adb_shell", "auth", "keygen.py")) as f:
+            kg = ast.parse(f.read())
+        u = Unit(consts, module=kg_mod)
+        for n in kg.body:
+            if isinstance(n, ast.FunctionDef) and n.name == "_to_bytes":
+                n.body = strip_docstring(n.body)
+                u.add_function("", n, lean="keygen_to_bytes")
+                u.classes[""]["_to_bytes"] = "keygen_to_bytes"
+            if isinstance(n, ast.FunctionDef) and n.name == "encode_pubkey":
+                body = strip_docstring(n.body)
+                tail = None
+                for i, st in enumerate(body):
+                    if isinstance(st, ast.With) and any(isinstance(x, ast.Name) and x.id == "key" and isinstance(x.ctx, ast.Store) for x in ast.walk(st)):
+                        tail = body[i + 1:]
+                node = ast.FunctionDef(name="encode_pubkey_arith", args=ast.arguments(posonlyargs=[], args=[ast.arg(arg="key")], kwonlyargs=[], kw_defaults=[], defaults=[]),
+                                       body=tail if tail else [ast.Global(names=["arithmetic_part_of_encode_pubkey_not_found"])], decorator_list=[])
+                u.add_function("", node, lean="keygen_encode_pubkey_arith")
+        units.append(("auth/keygen.py", u))
+    except Exception as exc:  # noqa  (cryptography missing, file moved ...): the C17Src theorems then have no subject
+        u = Unit(consts)
+        node = ast.FunctionDef(name="encode_pubkey_arith", args=ast.arguments(posonlyargs=[], args=[], kwonlyargs=[], kw_defaults=[], defaults=[]),
+                               body=[ast.Global(names=["keygen_module_unavailable_%s" % type(exc).__name__])], decorator_list=[])
+        u.add_function("", node, lean="keygen_encode_pubkey_arith")
+        units.append(("auth/keygen.py", u))
     # ---- adb_device.py / adb_device_async.py: max_chunk_size and the id allocation inside _open
     for fname, cls in (("adb_device.py", "AdbDevice"), ("adb_device_async.py", "AdbDeviceAsync")):
         with open(os.path.join(repo, "adb_shell", fname)) as f:
